@@ -416,7 +416,7 @@ func popcount(x int) int {
 func init() {
 	lib.Register(&lib.Check{
 		ID: "C13", Level: "model_checking",
-		Rule: "(search) databases = 40-entry, 12-identical + all subsets of <=2 (quick) / <=3 (thorough) of 13 pool entries; queries = 20 one-word + 56 two-word + long + empty; boost maps = 12 words x factors {1,1.3,2,3}, all 66 two-word maps with factors {2,3}, a zero, a negative and an empty map; NLP off/on; each as a pair (without, with boosts) at Limit>=N: same candidate set, boosted-word entries never lower, other entries bit-identical. (analyzer) every listing of <=2 names from 51 marker / non-marker names (thorough: + all subsets of >=3 of 18 representative markers) x 8 package.json x 8 Makefile texts on a real tmpfs directory: determinism, no duplicate type, generic exactly when nothing recognised, no recognised type missed, finite boosts >=1, GetContextBoosts invariant under forced map orders. non-trivial = pairs whose scores differ / non-generic directories",
+		Rule:      "(search) databases = 40-entry, 12-identical + all subsets of <=2 (quick) / <=3 (thorough) of 13 pool entries; queries = 20 one-word + 56 two-word + long + empty; boost maps = 12 words x factors {1,1.3,2,3}, all 66 two-word maps with factors {2,3}, a zero, a negative and an empty map; NLP off/on; each as a pair (without, with boosts) at Limit>=N: same candidate set, boosted-word entries never lower, other entries bit-identical. (analyzer) every listing of <=2 names from 51 marker / non-marker names (thorough: + all subsets of >=3 of 18 representative markers) x 8 package.json x 8 Makefile texts on a real tmpfs directory: determinism, no duplicate type, generic exactly when nothing recognised, no recognised type missed, finite boosts >=1, GetContextBoosts invariant under forced map orders. non-trivial = pairs whose scores differ / non-generic directories",
 		Assume:    []string{"map order pinned in searches; explored (deviation bound 1, reverse and rotate) in GetContextBoosts", "marker table copied from the analyzer's documented file names"},
 		QuickSecs: 150, ThorSecs: 1500,
 		Run: c13Run,
